@@ -7,7 +7,7 @@ use core::ops::{
 };
 
 /// HighwayHash powered by Neon instructions
-#[derive(Debug, Default, Clone)]
+#[derive(Debug, Clone)]
 pub struct NeonHash {
     buffer: HashPacket,
     v0L: V2x64U,
@@ -69,6 +69,12 @@ impl HighwayHash for NeonHash {
             buffer: self.buffer,
         }
         .checkpoint()
+    }
+}
+
+impl Default for NeonHash {
+    fn default() -> Self {
+        unsafe { Self::force_new(Key::default()) }
     }
 }
 
